@@ -60,6 +60,7 @@ func vCheckSet(s Set[int], ref []int, what string) {
 // VH_mapset_Ops: membership and Len after short operation sequences.
 func VH_mapset_Ops() {
 	s, ref := vOperand(vCase("s"), "a")
+	alias := s // a second handle on the same set (a copy of the map value)
 	for st := 0; st < vCase("steps"); st++ {
 		switch vChoice("op", 6) {
 		case 0:
@@ -107,6 +108,9 @@ func VH_mapset_Ops() {
 			vCover("clear")
 		}
 		vCheckSet(s, ref, "after op")
+		if alias != nil {
+			vAssert(alias.Len() == len(ref), "a second handle on the same set sees the same contents")
+		}
 	}
 }
 
@@ -165,6 +169,11 @@ func VH_mapset_Relations() {
 // VH_mapset_Fresh: constructors and copies return non-nil sets that do not alias their arguments.
 func VH_mapset_Fresh() {
 	s, sref := vOperand(vCase("s"), "a")
+	one := Intersect(s)
+	vAssert(one != nil, "Intersect of a single operand is non-nil")
+	vCheckSetNoProbe(one, sref, "Intersect of a single operand has its members")
+	one.Add(vOrd("fresh6"))
+	vCheckSetNoProbe(s, sref, "Intersect of a single operand does not alias it")
 	c := s.Clone()
 	vAssert(c != nil, "Clone is non-nil (even of nil)")
 	vCheckSetNoProbe(c, sref, "Clone has the same members")
